@@ -908,6 +908,59 @@ func healthStream(cfg *Config) *hx.Stats {
 			st.HarnessErr = "the empty world is not empty"
 		}
 	}
+	// (f) DETACHED reference cycles beside healthy containers, on every run: slabs that refer to each
+	//     other in a ring and to nothing else.  Every slab of the ring has exactly one parent, every
+	//     reference resolves, there is no leaf below the ring, so no walk from a leaf ever enters it:
+	//     "not reachable from a root" is the FIRST (and only) check that can reject such a storage.
+	//     (The real functions return on it; what does not return is a ring with a leaf below it, see
+	//     the observation that follows.  GetAllChildReferences is not called on a slab of the ring.)
+	for v := 0; v < 6; v++ {
+		p := len(specs) + v
+		seed := cfg.Seed*1000 + 950 + int64(v)
+		kind := []int{hwArrays, hwMaps, hwNested, hwArrays, hwEmpty, hwCollide}[v]
+		var ring []atree.SlabID
+		build := func() *healthWorld {
+			x := buildWorld(seed, kind, false)
+			ring = addRing(x, v, rand.New(rand.NewSource(seed)))
+			return x
+		}
+		x := build()
+		nr := len(x.roots)
+		st.Programs++
+		w.L("CFG world=%d kind=%s+ring%d committed=false roots=%s ring=%s", p, hwNames[kind], v, strings.Join(idStrs(x.roots), ","), strings.Join(idStrs(ring), ","))
+		runCheck(p, fmt.Sprintf("detached-ring%d", v), x, nr, "Unreachable", "")
+		runCheck(p, fmt.Sprintf("detached-ring%d-nocount", v), x, -1, "Unreachable", "")
+		runCheck(p, fmt.Sprintf("detached-ring%d-wrongcount", v), x, nr+1, "Unreachable", "")
+		runIter(p, fmt.Sprintf("detached-ring%d", v), x)
+		// committed and read back by a new storage: everything loaded
+		hcMust(x.ps.FastCommit(2))
+		x.ps = hx.NewStorage(x.ledger)
+		hcMust(x.ps.BatchPreload(x.ledger.SortedIDs(), 3))
+		runCheck(p, fmt.Sprintf("detached-ring%d-committed", v), x, nr, "Unreachable", "")
+		runCheck(p, fmt.Sprintf("detached-ring%d-committed-nocount", v), x, -1, "Unreachable", "")
+		runIter(p, fmt.Sprintf("detached-ring%d-committed", v), x)
+		// partly loaded: the roots and ONE slab of the ring; slab iteration fetches the rest of the ring
+		// from the ledger and stops where the ring closes on the loaded slab
+		x.ps = hx.NewStorage(x.ledger)
+		for _, id := range append(append([]atree.SlabID{}, x.roots...), ring[0]) {
+			if _, ok, err := x.ps.Retrieve(id); err != nil || !ok {
+				panic(fmt.Sprintf("committed slab %s cannot be read back: %v", hx.IDStr(id), err))
+			}
+		}
+		label := fmt.Sprintf("lazy-detached-ring%d", v)
+		runIter(p, label, x)
+		curProg = p
+		sd, sc, sb := storageState(x.ps, x.ledger, diff)
+		_, err := atree.CheckStorageHealth(x.ps, nr)
+		if k := healthErrKind(err); k != "Unreachable" {
+			viol(p, fmt.Sprintf("health check on a storage with a detached reference ring %v (one of its slabs loaded) answered %s, the check that has to fire is Unreachable: %v", idStrs(ring), k, err), "")
+		}
+		w.L("STO d=%s c=%s b=%s", heapLine(sd), heapLine(sc), heapLine(sb))
+		w.L("HCS expected=%d label=%s", nr, label)
+		w.L("OBS %s", map[bool]string{true: "ok:?", false: "err:" + healthErrKind(err)}[err == nil])
+		st.Ops++
+		st.Hit("check:lazy-detached-ring")
+	}
 	// OBSERVATION (not a violation: cyclic storages are not produced by valid histories and are not
 	// one of the four corruption classes): on a reference cycle below a root the real functions do
 	// not return.  Exercised in a child process under a watchdog.
@@ -974,6 +1027,73 @@ func dumpCases(s atree.Slab) []string {
 func hcSlab(ps *atree.PersistentSlabStorage, id atree.SlabID) atree.Slab {
 	s, _, _ := ps.Retrieve(id)
 	return s
+}
+
+// addRing adds a detached reference ring to the world: containers of which each holds exactly one
+// reference, to the next one, the last to the first (no slab has two parents, every reference
+// resolves, nothing of the world refers into the ring and the ring refers to nothing else).
+//
+//	0: A=[ref B], B=[ref A]                        1: A=[ref A]
+//	2: M={k: ref A}, A=[W(ref B)], B=[ref M]       3: A=[ref B], B=[ref A] under two different owners
+//	4: as 0 (the world is empty: the ring is all there is)
+//	5: 2-6 arrays, plain elements before and after the reference
+func addRing(x *healthWorld, v int, rng *rand.Rand) []atree.SlabID {
+	type node struct {
+		id  atree.SlabID
+		put func(atree.Value)
+	}
+	pay := uint64(50000000)
+	mkArr := func(addr atree.Address, before, after int) node {
+		a, err := atree.NewArray(x.ps, addr, hx.TI(50))
+		hcMust(err)
+		return node{a.SlabID(), func(ref atree.Value) {
+			for i := 0; i < before+after+1; i++ {
+				if i == before {
+					hcMust(a.Append(ref))
+					continue
+				}
+				pay++
+				hcMust(a.Append(hx.TV{Size: uint32(4 + rng.Intn(20)), Pay: pay}))
+			}
+		}}
+	}
+	mkMap := func(addr atree.Address) node {
+		m, err := atree.NewMap(x.ps, addr, atree.NewDefaultDigesterBuilder(), hx.TI(51))
+		hcMust(err)
+		return node{m.SlabID(), func(ref atree.Value) {
+			pay++
+			_, err := m.Set(hx.CompareKey, hx.HashInput, hx.TV{Size: 9, Pay: pay}, ref)
+			hcMust(err)
+		}}
+	}
+	home := hx.MkAddr(1)
+	var nodes []node
+	wrap := map[int]bool{}
+	switch v {
+	case 1:
+		nodes = []node{mkArr(home, 0, 0)}
+	case 2:
+		nodes = []node{mkMap(home), mkArr(home, 0, 0), mkArr(home, 0, 0)}
+		wrap[1] = true
+	case 3:
+		nodes = []node{mkArr(home, 0, 0), mkArr(hx.MkAddr(3), 0, 0)}
+	case 5:
+		for i, n := 0, 2+rng.Intn(5); i < n; i++ {
+			nodes = append(nodes, mkArr(home, rng.Intn(4), rng.Intn(4)))
+		}
+	default:
+		nodes = []node{mkArr(home, 0, 0), mkArr(home, 0, 0)}
+	}
+	var ids []atree.SlabID
+	for i, n := range nodes {
+		var ref atree.Value = RefV{nodes[(i+1)%len(nodes)].id}
+		if wrap[i] {
+			ref = hx.SomeValue{V: ref}
+		}
+		n.put(ref)
+		ids = append(ids, n.id)
+	}
+	return ids
 }
 
 // buildCycle: arrays A=[ref B, ref L], B=[ref A], L a large-value slab (no slab has two parents).
